@@ -33,7 +33,8 @@ REQUIRED_MONITORS = ['boundary:find_sec', 'boundary:PLSSDesc',
                      'boundary:Tract.lots', 'contract:unpack_sections',
                      'contract:unpack_lots', 'boundary:PLSSDesc:colon-required',
                      'boundary:PLSSDesc:segment',
-                     'boundary:PLSSDesc:list-ends-text']
+                     'boundary:PLSSDesc:list-ends-text',
+                     'boundary:no-colon-block', 'lot-warning-after-what-if']
 EXHAUSTIVE_SUBSPACES = {
     'thorough': ["every (a, b), a != b, 1..99 as a single section range",
                  "every (a, b), a != b, 1..150 as a single lot range"],
@@ -213,8 +214,24 @@ def check_sec(items, txt, ctx, rep, pytrs):
                         f"{e} of 154n97w", dedup=f"trdescs|{cfg5}|{len(lead)}")
                     return
         # Without a colon, under sec_colon_cautious (second pass).
-        full3 = f"T154N-R97W {txt} NE/4"
+        # (the block right behind the last number starts with N../S.. in
+        # three cases of five: a direction letter there is not a Twp's)
+        blk = ('NE/4', 'S/2', 'N/2NE/4', 'South Half', 'N½')[len(txt) % 5]
+        full3 = f"T154N-R97W {txt} {blk}"
         if not txt.rstrip().endswith(':'):
+            ctx.hit('boundary:no-colon-block')
+            got6 = pytrs.find_sec(f"{txt} {blk}")
+            d6 = pytrs.PLSSDesc(full3)
+            if got6 != e or [t.sec for t in d6.tracts] != e or \
+                    {t.desc for t in d6.tracts} != {blk}:
+                ctx.violation(
+                    'no-colon-block', case,
+                    f"find_sec({txt + ' ' + blk!r}) == {got6}; "
+                    f"PLSSDesc({full3!r}) gives "
+                    f"{[(t.sec, t.desc) for t in d6.tracts][:8]}; expected "
+                    f"sections {e}, each described {blk!r}",
+                    dedup=f"nocolon|{blk}")
+                return
             d3 = pytrs.PLSSDesc(full3, config='sec_colon_cautious')
             got4 = [t.sec for t in d3.tracts]
             ns3 = any('nonsequential' in f for f in d3.w_flags)
@@ -284,14 +301,23 @@ def check_lot(items, txt, ctx, rep, pytrs):
             ctx.violation('ilots', case, f"ilots {t.ilots}, expected {exp}")
         if t.lots_qqs != t.lots + t.qqs:
             ctx.violation('lots_qqs', case, "lots_qqs != lots + qqs")
+        whatif = len(txt) % 2 == 1
+        if whatif:
+            # a what-if parse in between: lots and warning stay as committed
+            ctx.hit('lot-warning-after-what-if')
+            t.parse(commit=False)
         ns = any('nonsequential' in f for f in t.w_flags)
-        if ns != desc:
+        if ns != desc or t.lots != e:
             ctx.violation('nonsequential-flag', case,
                           f"descending range present={desc} but "
                           f"non-sequential warning present={ns} "
-                          f"(w_flags {t.w_flags})", dedup=str(desc))
+                          f"(w_flags {t.w_flags}, lots {t.lots}; what-if "
+                          f"parse in between: {whatif})",
+                          dedup=f"{desc}|{whatif}")
         # The same lot list inside a full description.
         d = pytrs.PLSSDesc(f"T154N-R97W Sec 14: {txt}", parse_qq=True)
+        if whatif and len(d.tracts) == 1:
+            d.tracts[0].parse(commit=False)
         if len(d.tracts) != 1 or d.tracts[0].lots != e:
             ctx.violation('lots-in-description', case,
                           f"PLSSDesc('T154N-R97W Sec 14: {txt}') lots "
